@@ -13,14 +13,16 @@
 EXTENDS Integers, Sequences, FiniteSets, TLC
 
 \* ---- parameter shapes (each is concretised by harness/src/bin/c15.rs: fn concretise)
-OpenOkArgs  == {"ok", "ok_sort", "ok_nocollect", "ok_onepass", "ok_plugins", "ok_zip", "ok_huge", "ok_huge_onepass",
+OpenOkArgs  == {"ok_zip_slow", "ok_zip_slow_onepass", "ok", "ok_sort", "ok_nocollect", "ok_onepass", "ok_plugins", "ok_zip", "ok_huge", "ok_huge_onepass",
                 "zip_glob_all", "zip_glob_some", "ok_plugins_dup", "ok_ft", "ok_ft_nosave", "ok_ft_auto"}      \* _dup: every plugin configured twice under the same name
 \* archive opens whose extraction (asynchronous, after the reply) finds nothing: inner glob without match, archive
 \* without DLT file, file named like an archive that is none.  The statement fixes no polarity for the open itself
 \* (today ok:, the code carries a todo to report an error) - but every later command must be answered.
 OpenArchiveEmptyArgs == {"zip_glob_none", "zip_nodlt", "zip_nodlt_glob", "fakezip"}
 HugeOpenArgs == {"ok_huge", "ok_huge_onepass"}     \* a log of > 512 Ki messages (more than the bounded channels hold); scripted sessions only
-OnePassOpenArgs == {"ok_onepass", "ok_huge_onepass"}
+OnePassOpenArgs == {"ok_onepass", "ok_huge_onepass", "ok_zip_slow_onepass"}
+\* ok_zip_slow..: the same archive named 120 times - its extraction (sequential, after the reply) stays pending for several
+\* 100 ms, so that the commands behind the open meet a file context without parser thread; scripted sessions only
 OpenBadArgs == {"noarg", "badjson", "nofiles", "emptyfiles", "fileswrongtype", "filesnonstring", "missingfile",
                 "nodlt", "badcollect", "pluginswrongtype", "pluginnotobj", "nonarchive_bang", "missingzip_bang"}
 \* frame size classes: the same well-formed command padded to 1 KiB / 1 MiB / 15 MiB / 17 MiB / 64 MiB (JSON white space resp. a long
@@ -42,7 +44,11 @@ PluginArgs    == {"noarg", "badjson", "notobject", "nocmd", "noname", "noplugin"
 \* (idx 0 and 2 of the log) with a writable target; the variants below can never succeed
 PluginCmdOkArgs == {"ft_cmd", "save_ok", "save_ok2", "save_incomplete", "save_badidx", "save_unwritable", "save_noparams", "save_noctx"}
 SaveNeverArgs == {"ft_cmd", "save_incomplete", "save_badidx", "save_unwritable", "save_noparams", "save_noctx"}
-FsOkArgs      == {"stat_ok", "readdir_ok", "zip_readdir", "zip_stat"}
+\* stat_oldtime.. : file-metadata shapes (modification time before 1970 / beyond 2500, directory, symlinks - live, to a
+\* directory, dangling -, a fifo, a directory holding all of them and a non-UTF-8 name): existing paths, answered like any other
+FsMetaArgs    == {"stat_oldtime", "stat_futuretime", "stat_dir", "stat_olddir", "stat_symlink", "stat_symlink_dir", "stat_dangling",
+                  "stat_fifo", "readdir_meta", "readdir_emptydir", "readdir_via_symlink"}
+FsOkArgs      == {"stat_ok", "readdir_ok", "zip_readdir", "zip_stat"} \cup FsMetaArgs
 FsFakeArgs    == {"fakezip_readdir", "fakezip_stat"}
 FsBadArgs     == {"noarg", "badjson", "notobject", "nocmd", "nopath", "unknowncmd", "stat_missing", "readdir_missing",
                   "arch_nonexist", "arch_unsupported"}
